@@ -24,14 +24,15 @@ OpsAt(t, p) ==
   LET tb == GetAt(t, p) IN
   {Op("insert", p, ZZ, Leaf(9), 0), Op("insert", p, ZZ, NewTable(9), 0), Op("sort_values", p, <<>>, Leaf(0), 0), Op("fmt", p, <<>>, Leaf(0), 0), Op("clear", p, <<>>, Leaf(0), 0)}
   \cup UNION {
-        {Op("insert", p, tb.v[x].key, Leaf(9), 0), Op("remove", p, tb.v[x].key, Leaf(0), 0)}
+        {Op("insert", p, tb.v[x].key, Leaf(9), 0), Op("remove", p, tb.v[x].key, Leaf(0), 0), Op("retain_not", p, tb.v[x].key, Leaf(0), 0)}
         \cup (IF tb.v[x].val.k = "t" THEN {Op("to_inline", p, tb.v[x].key, Leaf(0), 0), Op("to_table", p, tb.v[x].key, Leaf(0), 0)} ELSE {})
         \cup (IF tb.v[x].val.k = "a" THEN {Op("array_fmt", p, tb.v[x].key, Leaf(0), 0)} ELSE {})
         \cup (IF tb.v[x].val.k = "a"
               THEN {Op("array_push", p, tb.v[x].key, Leaf(9), 0), Op("aot_push", p, tb.v[x].key, NewTable(9), 0)}
                    \cup {Op("array_insert", p, tb.v[x].key, Leaf(9), i) : i \in {0, 1}}
                    \cup UNION {{Op("array_replace", p, tb.v[x].key, Leaf(9), i), Op("array_remove", p, tb.v[x].key, Leaf(0), i),
-                                Op("aot_remove", p, tb.v[x].key, Leaf(0), i)} : i \in {0, 1}}
+                                Op("aot_remove", p, tb.v[x].key, Leaf(0), i), Op("array_retain_not", p, tb.v[x].key, Leaf(0), i),
+                                Op("aot_retain_not", p, tb.v[x].key, Leaf(0), i)} : i \in {0, 1}}
               ELSE {})
         : x \in 1..Len(tb.v)}
 AllOps(t) == UNION {OpsAt(t, p) : p \in TablePaths(t, <<>>)}
@@ -42,12 +43,14 @@ Init == tree = Start /\ hist = <<>>
 RECURSIVE Weight(_)
 Weight(x) == IF x = <<>> THEN 0 ELSE (IF Len(Head(x)) > 0 /\ Head(x)[1] >= 0 THEN Head(x)[1] ELSE 3) + 7 * Weight(Tail(x))
 Keep(o) == IF Len(hist) = 0 THEN TRUE ELSE (Weight(o.path) + Weight(<<o.key>>) + Len(o.op) + o.i + Len(hist[1].op) + Weight(hist[1].path)) % SAMPLE = 0
+\* retain(|..| not this one) is a removal spelled through the predicate API
+Canon(o) == [o EXCEPT !.op = CASE o.op = "retain_not" -> "remove" [] o.op = "array_retain_not" -> "array_remove" [] o.op = "aot_retain_not" -> "aot_remove" [] OTHER -> o.op]
 Next == /\ Len(hist) < MaxN
-        /\ \E o \in AllOps(tree) : Enabled(tree, o) /\ Keep(o) /\ tree' = ApplyOp(tree, o) /\ hist' = Append(hist, o)
+        /\ \E o \in AllOps(tree) : Enabled(tree, Canon(o)) /\ Keep(o) /\ tree' = ApplyOp(tree, Canon(o)) /\ hist' = Append(hist, o)
 Spec == Init /\ [][Next]_vars
 
 \* laws of the content semantics
-LastOp == hist'[Len(hist')]
+LastOp == Canon(hist'[Len(hist')])
 SurvivorsKeepOrder == [][LastOp.op # "sort_values" => SurvivorsOrdered(tree, tree')]_vars
 OnlyTouchedChanges ==
   [][LastOp.op \in {"insert", "remove"} =>
